@@ -35,7 +35,8 @@ Definition decode_request (default : enc) (pdu : list Z) (h : header) : res mess
   match m with
   | MSm cmd sm =>
     if cmd =? SmppCommand_DELIVER_SM
-    then (do _ <- parse_receipt (s_esm sm) (s_short sm) (receipted_id (s_opts sm)); Ok m)
+    then (* the receipt text is taken from short_message or, when that is empty, from message_payload *)
+         (do _ <- parse_receipt (s_esm sm) (match s_short sm with [] => s_payload sm | t => t end) (receipted_id (s_opts sm)); Ok m)
     else Ok m
   | _ => Ok m
   end.
